@@ -31,7 +31,7 @@ def bjob(entry, nh, sl, bits, timeout=900, mem_checks=True, extra=None, name=Non
 
 def jobs(tier):
     J = [bjob("harness_validate", 1, 3, 24), bjob("harness_validate", 2, 3, 24), bjob("harness_validate", 1, 2, 128, name="validate_hostile_lengths"),
-         bjob("harness_validate", 2, 3, 33)]
+         bjob("harness_validate", 2, 3, 33), bjob("harness_validate", 2, 3, 0)]
     if tier == "thorough":
         J += [bjob("harness_validate", 3, 3, 24, timeout=3000), bjob("harness_validate", 3, 2, 121, timeout=3000), bjob("harness_validate", 2, 8, 0)]
     return J
